@@ -144,6 +144,134 @@ func runC02(ctx *core.Ctx) {
 			ctx.Check(ok, "N1", shortFn(f)+"#envMap-key"+itoa(n), i.Pos(), "envMap indexed with envvarname(...) (on Windows keys are case-folded; a raw key would miss)")
 		})
 	}
+	// no in-place edits of the list: entries are only ever appended
+	{
+		nb := 0
+		for _, f := range tsFuncs(p) {
+			graph(p, f).Instrs(func(i ssa.Instruction) {
+				st, ok := i.(*ssa.Store)
+				if !ok {
+					return
+				}
+				ia, ok := st.Addr.(*ssa.IndexAddr)
+				if !ok || !ssax.DerivedFrom(ia.X, isFieldLoad("env"), nil) {
+					return
+				}
+				if _, isAlloc := ia.X.(*ssa.Slice); isAlloc {
+					return
+				}
+				nb++
+				ctx.Bad("N1", shortFn(f)+"#env-element-store"+itoa(nb), st.Pos(), "an element of TestScript.env is overwritten in place: the list is append-only (latest assignment wins by position); editing entries desynchronises it from envMap and can clobber another variable")
+			})
+		}
+		if nb == 0 {
+			ctx.OK("N1", "testscript#env-append-only", setenv.Pos(), "no element of the env list is ever overwritten in place")
+		}
+	}
+	// ---- N8: cmpenv compares against the expanded text
+	ctx.Rule("N8", "cmpenv: every comparison of the two file contents either uses the expansion of the second file or happens only when env substitution is off", 1)
+	if cmp := p.Func("testscript", "(*TestScript).doCmdCmp"); cmp != nil {
+		g := graph(p, cmp)
+		envP := cmp.Params[3]
+		k := 0
+		g.Instrs(func(i ssa.Instruction) {
+			b, ok := i.(*ssa.BinOp)
+			if !ok || (b.Op != token.EQL && b.Op != token.NEQ) || !isSeqT(b.X.Type()) {
+				return
+			}
+			fromFile := func(v ssa.Value) bool {
+				return ssax.DerivedFrom(v, func(x ssa.Value) bool { _, ok := isCallSuffix(x, ".ReadFile"); return ok }, func(cc *ssa.Call) bool { return true })
+			}
+			if !fromFile(b.X) || !fromFile(b.Y) {
+				return
+			}
+			k++
+			expanded := func(v ssa.Value) bool {
+				// the value, on every phi edge, is an expansion or arrives where env is false
+				var rec func(v ssa.Value, facts []ssax.Fact, d int) bool
+				rec = func(v ssa.Value, facts []ssax.Fact, d int) bool {
+					if _, ok := isCallSuffix(v, "TestScript).expand"); ok {
+						return true
+					}
+					if hasFact(facts, false, isVal(envP)) {
+						return true
+					}
+					if ph, ok := v.(*ssa.Phi); ok && d < 3 {
+						for e, ev := range ph.Edges {
+							if !rec(ev, factsOnEdge(g, ph.Block().Preds[e], ph.Block()), d+1) {
+								return false
+							}
+						}
+						return true
+					}
+					return false
+				}
+				return rec(v, g.FactsAtInstr(b), 0)
+			}
+			ctx.Check(expanded(b.X) || expanded(b.Y), "N8", "testscript.doCmdCmp#compare"+itoa(k), b.Pos(), "with env substitution on, the comparison uses the expanded expected text (comparing the raw template first lets a tool that echoes the template pass)")
+		})
+		if k == 0 {
+			ctx.Bad("N8", "testscript.doCmdCmp#compare", cmp.Pos(), "content comparison not found")
+		}
+	}
+	// ---- N9: the 'start' sentinel of the tokenizer is tested only at its boundary
+	ctx.Rule("N9", "sentinel discipline in the tokenizer: the chunk-start index uses -1 for 'no chunk'; every comparison of it with a constant is equivalent to 'start >= 0' or 'start < 0' (an off-by-one such as 'start > 0' drops a chunk that begins in column 0)", 2)
+	{
+		g := graph(p, parse)
+		web := map[ssa.Value]bool{}
+		g.Instrs(func(i ssa.Instruction) {
+			ph, ok := i.(*ssa.Phi)
+			if !ok || !isIntT(ph.Type()) {
+				return
+			}
+			for _, e := range ph.Edges {
+				if k, ok := ssax.ConstInt(e); ok && k == -1 {
+					phs, _ := phiWeb(ph)
+					for q := range phs {
+						web[q] = true
+					}
+				}
+			}
+		})
+		k := 0
+		g.Instrs(func(i ssa.Instruction) {
+			b, ok := i.(*ssa.BinOp)
+			if !ok {
+				return
+			}
+			var c int64
+			var op token.Token
+			if web[b.X] {
+				kk, isK := ssax.ConstInt(b.Y)
+				if !isK {
+					return
+				}
+				c, op = kk, b.Op
+			} else if web[b.Y] {
+				kk, isK := ssax.ConstInt(b.X)
+				if !isK {
+					return
+				}
+				c = kk
+				op = map[token.Token]token.Token{token.LSS: token.GTR, token.GTR: token.LSS, token.LEQ: token.GEQ, token.GEQ: token.LEQ, token.EQL: token.EQL, token.NEQ: token.NEQ}[b.Op]
+			} else {
+				return
+			}
+			switch op {
+			case token.GEQ, token.LSS, token.GTR, token.LEQ, token.EQL, token.NEQ:
+			default:
+				return
+			}
+			k++
+			ok2 := (op == token.GEQ && c == 0) || (op == token.LSS && c == 0) || (op == token.GTR && c == -1) || (op == token.LEQ && c == -1) || (op == token.EQL && c == -1) || (op == token.NEQ && c == -1)
+			ctx.Check(ok2, "N9", "testscript.parse#start-test"+itoa(k), b.Pos(), "chunk-start index compared at the sentinel boundary (found: start %s %d)", op, c)
+		})
+		if k == 0 {
+			ctx.Note("N9", "testscript.parse#start-test", parse.Pos(), "no sentinel-initialised index found; not decided")
+			ctx.OKTrivial("N9", "testscript.parse#no-sentinel-1", parse.Pos(), "not decided")
+			ctx.OKTrivial("N9", "testscript.parse#no-sentinel-2", parse.Pos(), "not decided")
+		}
+	}
 	// ---- N2
 	{
 		k := 0
